@@ -50,6 +50,7 @@ struct SendRec {
 };
 struct DiscRec {
     int fd = -1;
+    int conn_ord = -1;
     i64 at = 0;
     int thread = -1;
 };
@@ -79,6 +80,7 @@ struct World {
     std::deque<DiscRec> disconnects;
     std::map<int, int> disconnected_fds; // fd -> count since the fd was (re)accepted
     std::map<std::string, size_t> file_sizes;
+    std::vector<std::weak_ptr<Tcp::Peer>> peers; // every peer a request was seen on
     std::vector<std::unique_ptr<Http::ResponseWriter>> held; // writers of /never and /tmo requests
     std::mutex held_mtx;
     int timeouts_fired = 0;
@@ -201,7 +203,13 @@ public:
             std::sort(rr.cookies.begin(), rr.cookies.end());
             rr.at = sim::now_ns();
             rr.thread = sim::self_id();
-            rr.after_disconnect = w_->disconnected_fds.count(fd) && w_->disconnected_fds[fd] > 0;
+            rr.after_disconnect = false;
+            for (auto& d : w_->disconnects)
+                if (d.conn_ord == rr.conn_ord && rr.conn_ord >= 0) rr.after_disconnect = true;
+            try {
+                w_->peers.push_back(response.peer());
+            } catch (...) {
+            }
         }
         if (w_->custom && w_->custom(req, response)) return;
         auto parts = split_path(req.resource());
@@ -230,6 +238,13 @@ public:
         } else if (kind == "file" && parts.size() >= 2) {
             World::track(Http::serveFile(response, w_->file_path(parts[1])), w_->new_send(fd, req.resource()));
         } else if (kind == "tmo" && parts.size() >= 2) {
+            // keep the writer alive first, then arm its time-out (the armed timer refers to the writer it was armed on)
+            auto held = std::make_unique<Http::ResponseWriter>(std::move(response));
+            held->timeoutAfter(std::chrono::milliseconds(atol(parts[1].c_str())));
+            std::lock_guard<std::mutex> g(w_->held_mtx);
+            w_->held.push_back(std::move(held));
+        } else if (kind == "tmomoved" && parts.size() >= 2) {
+            // arm first, then move the writer (what a handler does that hands an armed writer to another context)
             response.timeoutAfter(std::chrono::milliseconds(atol(parts[1].c_str())));
             auto held = std::make_unique<Http::ResponseWriter>(std::move(response));
             std::lock_guard<std::mutex> g(w_->held_mtx);
@@ -260,6 +275,8 @@ public:
         sim::IgnoreScope ig;
         DiscRec d;
         d.fd = peer->fd();
+        for (auto& s : simk::sock_stats())
+            if (s.fd == d.fd && !s.closed) d.conn_ord = s.ordinal;
         d.at = sim::now_ns();
         d.thread = sim::self_id();
         w_->disconnects.push_back(d);
